@@ -274,6 +274,9 @@ func buildLayoutWorlds() {
 		{WLs: []wm.Workload{{Kind: "Deployment", NS: "ns1", Name: "w", Labels: map[string]string{"app": "b"}, Ports: []wm.CPort{{Name: "http", Num: 80}}, Replicas: 1}, pod("ns1", "pa", map[string]string{"app": "a"})},
 			NPs: []wm.NP{np}, Svcs: []wm.Svc{{NS: "ns1", Name: "s", Sel: map[string]string{"app": "b"}, Ports: []wm.SvcPort{{Port: 80}}}}, Ings: []wm.Ing{{NS: "ns1", Name: "i", Default: &wm.Backend{Svc: "s", PortNum: 80}}}},
 	}
+	npAllIP := wm.NP{NS: "ns1", Name: "all-from-ip", PodSel: *wm.ML("app", "a"), Types: []string{"Ingress"}, Ingress: []wm.NPRule{{Peers: []wm.NPPeer{{CIDR: "0.0.0.0/0"}}}}}
+	npCluster := wm.NP{NS: "ns1", Name: "cluster-8080", PodSel: wm.Sel{}, Types: []string{"Ingress"}, Ingress: []wm.NPRule{{Peers: []wm.NPPeer{{NSSel: all}}, Ports: []wm.NPPort{{HasPort: true, Num: 8080}}}}}
+	ws = append(ws, &wm.World{WLs: []wm.Workload{pod("ns1", "pa", map[string]string{"app": "a"}), pod("ns1", "pb", map[string]string{"app": "b"})}, NPs: []wm.NP{npAllIP, npCluster}})
 	for _, w := range ws {
 		lw := layoutWorld{w: w, docs: w.YAMLDocs(), admin: len(w.ANPs) > 0}
 		var pods []string
@@ -443,7 +446,7 @@ func runRepeats(r *fw.Run) {
 			if i == 0 {
 				first = out
 			} else if string(out) != string(first) {
-				x.Fail("two runs of the same command on the same input print different bytes: "+cmdClass(strings.Join(cs.args[:1], " ")+" -o "+cs.args[len(cs.args)-2]), "",
+				x.Fail("two runs of the same command on the same input print different bytes: "+cmdClass(cs.desc[strings.Index(cs.desc, " ")+1:]), "",
 					fmt.Sprintf("%s (run 1 vs run %d)\n--- run 1\n%s\n--- run %d\n%s", cs.desc, i+1, clip(string(first)), i+1, clip(string(out))))
 				return
 			}
